@@ -37,6 +37,11 @@ func (c *Concat) Init(n *onnx.NodeProto) error {
 
 // Apply applies the concat operator.
 func (c *Concat) Apply(inputs []tensor.Tensor) ([]tensor.Tensor, error) {
+	rank := len(inputs[0].Shape())
+	if c.axis < -rank || c.axis > rank-1 {
+		return nil, ops.ErrAxisOutOfRange(rank, rank, c.axis)
+	}
+
 	// Not sure why this is possible, but minimum number of inputs is said to be 1.
 	if len(inputs) == 1 {
 		return inputs, nil
